@@ -439,7 +439,7 @@ class AltSpec(FnContract):
                      z3.Not(z3.And(L.is_Obj(result), L.cls_of(Val.oref(result)) == sh.cid('SliceOp'))))
         exp = spec_tree(ex, fname, lhs, rhs, p0, ctx)
         if exp is None:
-            ex.prove('C06:%s:has-a-tree-spec' % tag, ['C06'], False)
+            ex.prove('C06:%s:has-a-tree-spec' % tag, ['C06', 'C07', 'C15', 'C09'], False)
             return
         ex.prove('C06:%s:builds-the-tree-of-the-published-language' % tag, ['C06', 'C07', 'C15', 'C09'],
                  matches(ex, result, exp, None), {'watch': {'p[0]': result}})
